@@ -20,14 +20,13 @@ import progcommon as pc
 BUILDS = ["raw", 0, 31]
 PACK = 10                       # enumerated functions per compiled program
 MAX_REPORTS = 3
-MODEL_CFGS = {"quick": ["TailRecMC.cfg", "TailRecMCdeep.cfg", "TailRecMCnest.cfg"],
-              "thorough": ["TailRecMCwideT.cfg", "TailRecMCdeepT.cfg", "TailRecMCnestT.cfg"]}
+# one TLC run per universe checks the theorem on every body and prints the body with the specification's results
+MODEL_CFGS = {"quick": ["TailRecMC.cfg", "TailRecMCdeep.cfg", "TailRecMCnest.cfg", "TailRecMCunit.cfg"],
+              "thorough": ["TailRecMCwideT.cfg", "TailRecMCdeepT.cfg", "TailRecMCnestT.cfg", "TailRecMCunitT.cfg"]}
 MUST_FAIL = [("TailRecAsIsSeq.cfg", "loop variables assigned one after another (before commit 8593e50)"),
              ("TailRecAsIsDiscard.cfg", "a discarded self call taken for a tail call")]
-GEN_CFGS = {"quick": ["TailRecGenWideQuick.cfg", "TailRecGenDeepQuick.cfg", "TailRecGenNestQuick.cfg"],
-            "thorough": ["TailRecGenWide.cfg", "TailRecGenDeep.cfg", "TailRecGenNest.cfg"]}
-# how many of the enumerated bodies of each universe the quick tier replays (evenly spread; all in thorough)
-QUICK_SHARE = {"TailRecGenWideQuick.cfg": 700, "TailRecGenDeepQuick.cfg": 600, "TailRecGenNestQuick.cfg": 400}
+# how many of the enumerated bodies of a universe are replayed at most (evenly spread over the sorted cases)
+REPLAY_SHARE = {"quick": 2500, "thorough": 30000}
 
 
 # ------------------------------------------------------------------------------------------------ rendering
@@ -50,17 +49,17 @@ def expr(e, np, helper, tag):
     return f"{l} {e['op']} {r}"
 
 
-def body(b, np, helper, tag, ind):
+def body(b, np, helper, tag, ind, unit=False):
     """the text of a body in expression position (the contents of a block)"""
     me = f"Main.{'g' if helper else 'f'}{tag}"
     pad = "  " * ind
     k = b["kind"]
     if k == "ret":
-        return pad + expr(b["x"], np, helper, tag)
+        return pad + ("{}" if unit else expr(b["x"], np, helper, tag))
     if k == "if":
         c = b["c"]
-        return (f"{pad}if {expr(c['e'], np, helper, tag)} {c['op']} {c['k']} {{\n" + body(b["t"], np, helper, tag, ind + 1) +
-                f"\n{pad}}} else {{\n" + body(b["e"], np, helper, tag, ind + 1) + f"\n{pad}}}")
+        return (f"{pad}if {expr(c['e'], np, helper, tag)} {c['op']} {c['k']} {{\n" + body(b["t"], np, helper, tag, ind + 1, unit) +
+                f"\n{pad}}} else {{\n" + body(b["e"], np, helper, tag, ind + 1, unit) + f"\n{pad}}}")
     call = f"{me}({', '.join(expr(x, np, helper, tag) for x in b['args'])})"
     if k == "tail":
         return pad + call
@@ -71,11 +70,12 @@ def body(b, np, helper, tag, ind):
 def function(fun, helper, tag):
     np = fun["np"]
     params = ", ".join(f"{pname(np, i, helper)}: int" for i in range(1, np + 1))
-    head = f"  function {'g' if helper else 'f'}{tag}({params}): int ="
+    unit = bool(fun.get("unit"))
+    head = f"  function {'g' if helper else 'f'}{tag}({params}): {'unit' if unit else 'int'} ="
     if fun["print"]:
         return (f"{head} {{\n    let _ = Process.println(Str.fromInt({pname(np, fun['print'], helper)}));\n" +
-                body(fun["body"], np, helper, tag, 2) + "\n  }\n")
-    return head + "\n" + body(fun["body"], np, helper, tag, 2) + "\n"
+                body(fun["body"], np, helper, tag, 2, unit) + "\n  }\n")
+    return head + "\n" + body(fun["body"], np, helper, tag, 2, unit) + "\n"
 
 
 def pack_program(cases, opaque, origin):
@@ -89,7 +89,8 @@ def pack_program(cases, opaque, origin):
         for call in c["calls"]:
             if call["ok"]:
                 args = ", ".join(f'"{v}".toInt()' if opaque else str(v) for v in call["args"])
-                calls.append(f"    let _ = Process.println(Str.fromInt(Main.f{i}({args})));")
+                calls.append(f"    let _ = Main.f{i}({args});" if c["f"].get("unit") else
+                             f"    let _ = Process.println(Str.fromInt(Main.f{i}({args})));")
     text = "class Main {\n" + "".join(fns) + "  function main(): unit = {\n" + "\n".join(calls) + "\n  }\n}\n"
     return {"origin": origin, "entry": "Main", "sources": {"Main": text}}
 
@@ -98,7 +99,7 @@ def expected_lines(cases):
     return [l for c in cases for call in c["calls"] if call["ok"] for l in call["lines"]]
 
 
-def runs_of(rec):
+def runs_of(rec, kinds=("wasm", "ts")):
     """[{name, out}] for every build x back end; a crash / trap / invalid module becomes a line of its own"""
     if rec.get("front") != "accepted":
         return [{"name": "front", "out": [f"<front end: {rec.get('front')} {rec.get('errors') or rec.get('crash')}>"]}]
@@ -107,9 +108,9 @@ def runs_of(rec):
         if v.get("status") != "ok":
             runs.append({"name": b, "out": [f"<compiler crashed: {v.get('message')}>"]})
             continue
-        for k in ("wasm", "ts"):
+        for k in kinds:
             if k in v:
-                out = list(v[k]["out"])
+                out = list(v[k]["out"])[:MAX_LINES]
                 if v[k]["end"]["k"] != "return":
                     out.append("<" + json.dumps(v[k]["end"]) + ">")
                 runs.append({"name": f"{b}/{k}", "out": out})
@@ -120,70 +121,124 @@ def runs_of(rec):
 
 # ------------------------------------------------------------------------------------------------ model checking
 def model_check(pid, tier):
-    """the theorem over the bounded universes (must pass) and the two as-is configurations (must fail)"""
+    """The theorem over the bounded universes (must pass; the same runs print every body with the specification's
+    results) and the two as-is configurations (must fail).  Returns (cases, coverage)."""
     jobs = [(c, False) for c in MODEL_CFGS[tier]] + [(c, True) for c, _ in MUST_FAIL]
-    workers = 3 if tier == "quick" else 5
+    workers = 3 if tier == "quick" else 4
 
     def one(job):
-        cfg, _ = job
-        return tlc("TailRecMC", cfg, workers=workers, timeout=2400, tag=f"{pid}tr-{cfg[:-4]}")
+        return tlc("TailRecMC", job[0], workers=workers, timeout=2400, tag=f"{pid}tr-{job[0][:-4]}")
 
-    with ThreadPoolExecutor(max_workers=len(jobs) if tier == "quick" else 3) as ex:
+    with ThreadPoolExecutor(max_workers=len(jobs) if tier == "quick" else 4) as ex:
         results = list(ex.map(one, jobs))
-    cov = {"tailrec_model": {}}
+    cov, cases, per_cfg = {}, [], {}
     for (cfg, must_fail), res in zip(jobs, results):
-        initial = 0
-        for line in res.out.splitlines():
-            if line.startswith("Finished computing initial states:"):
-                initial = int(line.split(":")[1].split()[0])
         if must_fail:
             if res.violated != "RewriteSound":
                 log(res.out[-2500:])
                 tool_failure(f"{cfg} is a must-fail configuration ({dict(MUST_FAIL)[cfg]}) but TLC reported "
                              f"{res.violated or res.error or 'no error'}: the model can no longer see the defect")
-            cov["tailrec_model"][cfg] = {"must_fail": True, "violated": res.violated, "wall_s": round(res.wall, 1)}
-        else:
-            tlc_must_pass(res, f"TailRec.tla model checking ({cfg})")
-            cov["tailrec_model"][cfg] = {"states": res.distinct, "bodies": res.distinct - initial, "generated": res.generated,
-                                         "wall_s": round(res.wall, 1)}
-    return cov
-
-
-def generate(pid, tier):
-    cases = []
-    per_cfg = {}
-
-    def one(cfg):
-        return tlc("TailRecMC", cfg, workers=4, timeout=2400, tag=f"{pid}tr-{cfg[:-4]}")
-
-    with ThreadPoolExecutor(max_workers=3) as ex:
-        results = list(ex.map(one, GEN_CFGS[tier]))
-    for cfg, res in zip(GEN_CFGS[tier], results):
-        tlc_must_pass(res, f"TailRec case generation ({cfg})")
-        got = [c for c in behaviours_from(res) if any(call["ok"] for call in c["calls"])]
+            cov[cfg] = {"must_fail": True, "violated": res.violated, "wall_s": round(res.wall, 1)}
+            continue
+        tlc_must_pass(res, f"TailRec.tla model checking ({cfg})")
+        got = behaviours_from(res)
+        cov[cfg] = {"states": res.distinct, "transitions": res.generated, "bodies": len(got), "wall_s": round(res.wall, 1),
+                    "recognised": sum(1 for c in got if c["rec"])}
+        # replayed: bodies with a self call and at least one call within the budget (plus a few without a self
+        # call: the compiler must leave them alone, too)
+        plain = [c for c in got if not c["selfcall"]][:20]
+        got = [c for c in got if c["selfcall"] and any(call["ok"] for call in c["calls"])] + plain
         got.sort(key=lambda c: json.dumps(c, sort_keys=True))        # TLC's workers print in any order
         total = len(got)
-        if tier == "quick" and total > QUICK_SHARE[cfg]:
-            # evenly spread, but every body whose tail call reads a parameter assigned before it stays in
-            step = total / QUICK_SHARE[cfg]
-            keep = {int(i * step) for i in range(QUICK_SHARE[cfg])}
+        share = REPLAY_SHARE[tier]
+        if total > share:
+            keep = {int(i * total / share) for i in range(share)}
             got = [c for i, c in enumerate(got) if i in keep]
-        per_cfg[cfg] = {"enumerated": total, "replayed": len(got), "model_states": res.distinct}
+        per_cfg[cfg] = {"replayable": total, "replayed": len(got)}
         for c in got:
-            c["universe"] = cfg[10:-4]
+            c["universe"] = cfg[9:-4] or "wide"
         cases += got
-    return cases, per_cfg
+    return cases, {"tailrec_model": cov, "tailrec_cases": per_cfg}
 
 
 # ------------------------------------------------------------------------------------------------ replay
+FUEL = 3_000_000        # wasm instructions per program (a pack needs < 100 k): a wrongly compiled loop may never end
+TS_TIMEOUT_MS = 300     # ... and may print on every iteration (the TypeScript runner keeps up to 64 MiB of lines)
+MAX_LINES = 400         # of a run that are handed to TLC (a pack prints < 300)
+
+
+def run_programs_bounded(d, name, programs, jobs, backends, ts_timeout=TS_TIMEOUT_MS):
+    """progcommon.run_programs with a small instruction budget and TypeScript timeout (same `vh run-programs`,
+    same record format): a miscompiled loop that never ends must end up as a wrong line, not as a stuck check."""
+    build_harness()
+    for i, p in enumerate(programs):
+        p["id"] = i
+    chunks = [c for c in (programs[i::jobs] for i in range(jobs)) if c]
+
+    def work(ci):
+        inp = os.path.join(d, f"{name}-{backends}-in-{ci}.ndjson")
+        outp = os.path.join(d, f"{name}-{backends}-rec-{ci}.ndjson")
+        write_ndjson(inp, chunks[ci])
+        vh(["run-programs", "--in", inp, "--out", outp, "--builds", ",".join(map(str, BUILDS)), "--backends", backends,
+            "--fuel", FUEL, "--ts-timeout-ms", ts_timeout], timeout=3000)
+        return read_ndjson(outp)
+
+    with ThreadPoolExecutor(max_workers=max(1, len(chunks))) as ex:
+        parts = list(ex.map(work, range(len(chunks))))
+    return sorted((r for part in parts for r in part), key=lambda r: r["id"])
+
+
 def compile_and_run(d, name, packs, jobs=8):
+    """WebAssembly first (bounded by the instruction budget); TypeScript only for the programs whose WebAssembly
+    runs printed what is expected — a program that is already wrong is reported from those runs, and a loop that
+    never ends is not run a second time.  A TypeScript run cut by the (short) watchdog is repeated with a long one."""
     progs = [pack_program(p["cases"], p["opaque"], f"tailrec:{name}:{i}") for i, p in enumerate(packs)]
-    recs = pc.run_programs(d, name, progs, BUILDS, jobs=jobs)
-    rows = []
-    for p, prog, r in zip(packs, progs, recs):
-        rows.append({"fns": [{k: c[k] for k in ("f", "g", "calls")} for c in p["cases"]], "runs": runs_of(r),
+    wrecs = run_programs_bounded(d, name, [dict(p) for p in progs], jobs, "wasm")
+    rows, fine = [], []
+    for i, (p, prog, r) in enumerate(zip(packs, progs, wrecs)):
+        runs = runs_of(r, ("wasm",))
+        rows.append({"fns": [{k: c[k] for k in ("f", "g", "calls")} for c in p["cases"]], "runs": runs,
                      "program": prog["sources"]["Main"]})
+        exp = expected_lines(p["cases"])
+        if all(run["out"] == exp for run in runs):
+            fine.append(i)
+    trecs = run_programs_bounded(d, name, [dict(progs[i]) for i in fine], min(jobs, 6), "ts")
+    for i, r in zip(fine, trecs):
+        cut = [b for b, v in r.get("builds", {}).items() if v.get("ts", {}).get("end", {}).get("k") == "budget"]
+        if cut:
+            r = run_programs_bounded(d, name + "-again", [dict(progs[i])], 1, "ts", ts_timeout=5000)[0]
+        rows[i]["runs"] += runs_of(r, ("ts",))
     return rows
+
+
+def recognition_drift(d, packs, rows, limit):
+    """[RT] the transcription against the real function: in the unoptimised MIR of a sample of the compiled
+    programs, f<i> is a `while (true)` loop iff TryRewrite of the specification recognises the body.
+    A disagreement is MODEL-DRIFT (the transcription is out of date), never a verdict."""
+    import re
+    step = max(1, len(packs) // limit)
+    sample = list(range(0, len(packs), step))[:limit]
+
+    def one(i):
+        path = os.path.join(d, f"tailrec-mir-{i}.json")
+        with open(path, "w") as f:
+            json.dump({"Main": rows[i]["program"]}, f)
+        out, rc = vh(["mir-dump", "--json", path, "--build", "raw"], check=False, timeout=120)
+        os.remove(path)
+        if rc != 0:
+            return 0, []
+        loops = {}
+        for m in re.finditer(r"^function _Main_Main\$f(\d+)\(.*?^}", out, re.M | re.S):
+            loops[int(m.group(1))] = "while (true)" in m.group(0)
+        return len(loops), [(i, k, c["rec"], loops[k]) for k, c in enumerate(packs[i]["cases"]) if k in loops and loops[k] != c["rec"]]
+
+    with ThreadPoolExecutor(max_workers=8) as ex:
+        parts = list(ex.map(one, sample))
+    diffs = [x for _, part in parts for x in part]
+    for i, k, rec, loop in diffs[:5]:
+        log(f"MODEL-DRIFT: TailRec.tla says the body of f{k} is {'recognised' if rec else 'not recognised'} but the compiler "
+            f"{'made' if loop else 'did not make'} it a loop:\n{function(packs[i]['cases'][k]['f'], False, k)}")
+    return len(diffs), sum(n for n, _ in parts)
 
 
 def judge(pid, d, rows, tag, stats):
@@ -228,39 +283,40 @@ def run_tailrec(pid, tier, d, stats):
     """returns (violations, coverage dict)"""
     t0 = time.time()
     build_harness()
-    with ThreadPoolExecutor(max_workers=2) as ex:
-        mc_future = ex.submit(model_check, pid, tier)
-        cases, per_cfg = generate(pid, tier)
-        t_gen = time.time() - t0
-        packs = []
-        for uni in sorted({c["universe"] for c in cases}):
-            cs = [c for c in cases if c["universe"] == uni]
-            for i in range(0, len(cs), PACK):
-                chunk = cs[i:i + PACK]
-                variants = [True, False] if tier == "thorough" else [(i // PACK) % 2 == 0]
-                for opaque in variants:
-                    packs.append({"cases": chunk, "opaque": opaque})
-        rows = compile_and_run(d, "tailrec", packs)
-        t_run = time.time() - t0 - t_gen
-        bad = judge(pid, d, rows, "all", stats)
-        cov = mc_future.result()
+    cases, cov = model_check(pid, tier)
+    t_mc = time.time() - t0
+    packs = []
+    for uni in sorted({c["universe"] for c in cases}):
+        cs = [c for c in cases if c["universe"] == uni]
+        for i in range(0, len(cs), PACK):
+            chunk = cs[i:i + PACK]
+            # arguments as compile-time constants (the optimiser sees the loop bounds) / as run-time values
+            for opaque in ([True, False] if tier == "thorough" else [(i // PACK) % 2 == 0]):
+                packs.append({"cases": chunk, "opaque": opaque})
+    rows = compile_and_run(d, "tailrec", packs)
+    t_run = time.time() - t0 - t_mc
+    bad = judge(pid, d, rows, "all", stats)
     fails = 0
     for idx, inv in bad:
         for m in minimise(pid, d, rows[idx], packs[idx], stats):
+            for run in m["wrong"]:
+                run["out"] = run["out"][:60]
             path = save_replay(pid, "tailrec", {"case": m["case"], "program": m["program"], "builds": [str(b) for b in BUILDS]},
                                {"printed": m["expected"], "by": "Ref of spec/TailRec.tla"},
                                {"invariant": f"{inv} of spec/TailRecTrace.tla", "runs": m["wrong"]},
                                how="compile `program` (module Main) with vh run-programs --builds raw,0,31 and compare the printed lines")
             report_violation(pid, path)
             fails += 1
+    drift, drift_checked = recognition_drift(d, packs, rows, 32 if tier == "quick" else 300)
     sample = rows[len(rows) // 2]
-    cov.update({"tailrec_cases": per_cfg, "tailrec_bodies_replayed": sum(len(p["cases"]) for p in packs),
+    cov.update({"tailrec_recognition_compared_with_mir": drift_checked, "tailrec_model_drift": drift,
+                "tailrec_bodies_replayed": sum(len(p["cases"]) for p in packs),
                 "tailrec_programs_compiled": len(packs), "tailrec_builds": [str(b) for b in BUILDS],
                 "tailrec_calls_judged": sum(1 for p in packs for c in p["cases"] for call in c["calls"] if call["ok"]),
-                "tailrec_lines_judged": sum(len(expected_lines(p["cases"])) for p in packs) * len(sample["runs"]),
+                "tailrec_lines_judged": sum(len(expected_lines(p["cases"])) * len(r["runs"]) for p, r in zip(packs, rows)),
                 "tailrec_recognised_bodies": sum(1 for p in packs for c in p["cases"] if c["rec"]),
                 "tailrec_nested_loop_bodies": sum(1 for p in packs for c in p["cases"] if c["usesg"]),
-                "tailrec_wall_s": {"generate": round(t_gen, 1), "compile_and_run": round(t_run, 1), "total": round(time.time() - t0, 1)},
+                "tailrec_wall_s": {"model_checking": round(t_mc, 1), "compile_and_run": round(t_run, 1), "total": round(time.time() - t0, 1)},
                 "tailrec_sample": {"program": sample["program"][:600], "printed": sample["runs"][0]["out"][:8]}})
     return fails, cov
 
